@@ -76,7 +76,28 @@ except Exception as e:
 sys.exit(0)
 '''
 
+RENAME_SIG = r'''
+import sys, os, tempfile, importlib.util
+import numpy as np, onnx, onnxscript
+from onnx import helper, TensorProto
+g = helper.make_graph([helper.make_node("Relu", ["x"], ["t"]), helper.make_node("Neg", ["t"], ["y"])], "g", [helper.make_tensor_value_info("x", TensorProto.FLOAT, [2])],
+                      [helper.make_tensor_value_info("y", TensorProto.FLOAT, [2])])
+m = helper.make_model(g, opset_imports=[helper.make_opsetid("", 18)], ir_version=9)
+code = onnxscript.proto2python(m, rename=True)
+d = tempfile.mkdtemp(); path = os.path.join(d, "rename_case.py"); open(path, "w").write(code)
+spec = importlib.util.spec_from_file_location("rename_case", path); mod = importlib.util.module_from_spec(spec); sys.modules["rename_case"] = mod
+try:
+    spec.loader.exec_module(mod)
+except Exception as e:
+    sig = [l for l in code.splitlines() if l.startswith("def ")][0]
+    print(f"proto2python(model, rename=True) emits {sig!r} with a body over other names; loading it fails:", type(e).__name__, str(e).splitlines()[0][:140])
+    sys.exit(1)
+sys.exit(0)
+'''
+
 def replay(ob):
+    if "graph_signature.parameters" in ob["name"]:
+        return RENAME_SIG
     if "operator_text.parses" in ob["name"]:
         return POW
     if "decorator.names_the_imported" in ob["name"]:
